@@ -344,13 +344,21 @@ theorem filterMap_congr' {α β : Type} (l : List α) (f g : α → Option β) (
 
 theorem wf_panics (T : MesgTable) (hw : T.wf = true) : T.panics = [] := by
   simp only [MesgTable.wf, Bool.and_eq_true, List.isEmpty_iff] at hw
-  exact hw.1.1.1
+  exact hw.1.1.1.1
+
+theorem wf_hasDev (T : MesgTable) (hw : T.wf = true) : T.hasDev = true := by
+  simp only [MesgTable.wf, Bool.and_eq_true] at hw
+  exact hw.2
+
+theorem wf_nodup (T : MesgTable) (hw : T.wf = true) : nodup (T.slots.map (·.num)) = true := by
+  simp only [MesgTable.wf, Bool.and_eq_true] at hw
+  exact hw.1.1.2
 
 theorem wf_slot (T : MesgTable) (hw : T.wf = true) (s : Slot) (hs : s ∈ T.slots) :
     s.wf = true ∧ s.readNum = s.num ∧ s.num < T.guard ∧ (s.canExpand = true → s.num < T.markBound) := by
   simp only [MesgTable.wf, Bool.and_eq_true, List.all_eq_true, beq_iff_eq, decide_eq_true_eq, Bool.or_eq_true,
     Bool.not_eq_true'] at hw
-  have h := hw.2 s hs
+  have h := hw.1.2 s hs
   refine ⟨h.1.1.1, h.1.1.2, h.1.2, ?_⟩
   intro hc
   rcases h.2 with h2 | h2
